@@ -674,6 +674,38 @@ where
     }
 }
 
+#[cfg(feature = "verif_hooks")]
+impl<R: io::Read, P> Reader<R, P> {
+    /// Read-only view of the private parser state (verification harness only).
+    pub fn verif_snapshot(&self) -> Vec<(&'static str, i64)> {
+        vec![
+            ("state", self.state as i64),
+            ("incomplete_pos", self.incomplete_pos.map(|p| p as i64).unwrap_or(-1)),
+            ("buf_len", self.buf_reader.buffer().len() as i64),
+            ("cap", self.buf_reader.capacity() as i64),
+            ("start", self.buf_pos.pos.0 as i64),
+            ("end", self.buf_pos.pos.1 as i64),
+            ("seq", self.buf_pos.seq as i64),
+            ("sep", self.buf_pos.sep as i64),
+            ("qual", self.buf_pos.qual as i64),
+            ("pos_line", self.position.line as i64),
+            ("pos_byte", self.position.byte as i64),
+        ]
+    }
+}
+
+#[cfg(feature = "verif_hooks")]
+impl RecordSet {
+    /// Read-only view of the private record set state (verification harness only).
+    pub fn verif_snapshot(&self) -> Vec<(&'static str, i64)> {
+        vec![
+            ("buf_len", self.buffer.len() as i64),
+            ("buf_cap", self.buffer.capacity() as i64),
+            ("n_positions", self.buf_positions.len() as i64),
+        ]
+    }
+}
+
 /// Borrowed iterator of `OwnedRecord`
 pub struct RecordsIter<'a, R, P = DefaultBufPolicy>
 where
